@@ -24,6 +24,17 @@ def exact_replay(ctx, T):
         except Exception as e:
             ctx.violation("%s:exact:exception" % c["cls"], repr(e), dict(desc, x=x))
             continue
+        if c["cls"] == "Softmax":
+            # a single sample given as a 1-D vector is one row (as forward and backward read it): the same determinant
+            try:
+                j1 = tc.quiet(t.jacobian, np.array([x, tc.q(c["x2"])]))
+                if np.size(j1) != 1 or not tc.close(np.ravel(j1)[0], float(np.ravel(j)[0]), 1e-12):
+                    ctx.violation("Softmax:jacobian-1d", "jacobian of the 1-D vector [x1, x2] = %r, of the same sample as a row %r" %
+                                  (np.ravel(j1).tolist(), np.ravel(j).tolist()), dict(desc, x=x))
+                    continue
+            except Exception as e:
+                ctx.violation("Softmax:exact:exception", repr(e), dict(desc, x=x))
+                continue
         site = {"LogBase": "Log", "LogNat": "Log", "BoxCoxLam0": "BoxCox2", "Logit0": "Logit", "SinhSq": "Sinh", "Manly0": "Manly"}.get(c["cls"], c["cls"])
         e = tc.q(d["jac"])
         if c["cls"] == "LogBase":
